@@ -28,6 +28,7 @@ def run_sym(
     max_paths: int = 2000,
     case_id: Optional[str] = None,
     sample: Any = None,
+    record: bool = True,
 ) -> dict:
     """
     Explore every feasible path of `fn` (which builds its own symbolic inputs and calls the real code), and on
@@ -40,7 +41,10 @@ def run_sym(
     """
     pm = PathManager(precondition=list(pre), max_paths=max_paths, timeout_ms=min(timeout_ms, 5000))
     stats = {"paths": 0, "proved": 0, "refuted": 0, "unknown": 0, "vacuous": 0}
-    with FunctionRecorder(check.functions):
+    if record:
+        with FunctionRecorder(check.functions):
+            paths = list(pm.explore(fn))
+    else:
         paths = list(pm.explore(fn))
     first = True
     for kind, res, pc in paths:
